@@ -176,6 +176,22 @@ def run_mc(module, consts, invariants=("Inv",), workers=8, timeout=1200, tag=Non
     return dict(module=module, states=states, distinct=distinct, vectors=nvec, seconds=round(dt, 1), consts={k: str(v) for k, v in consts.items()})
 
 
+def run_apalache(module, inv, timeout=600):
+    """Supplementary unbounded lemma (Apalache). Never a verdict: returns a short status string for the evidence."""
+    d = os.path.join(SPEC, "apalache")
+    work = os.path.join(OUT, "apalache-" + module)
+    shutil.rmtree(work, ignore_errors=True)
+    try:
+        r = subprocess.run(["apalache-mc", "check", "--length=0", f"--inv={inv}", f"--out-dir={work}", module + ".tla"], cwd=d, capture_output=True, text=True, timeout=timeout)
+        out = r.stdout + r.stderr
+        status = "NoError (lemmas hold for all integers)" if "The outcome is: NoError" in out else "not discharged: " + out[-300:]
+    except (subprocess.TimeoutExpired, FileNotFoundError) as e:
+        status = f"not run: {e}"
+    shutil.rmtree(work, ignore_errors=True)
+    log(f"[apalache] {module}.{inv}: {status[:80]}")
+    return status
+
+
 def split_groups(path, nshards, min_events=1500):
     """Split an ndjson trace into shard files at group boundaries (lines carrying "g":1 start a group;
     a trace without marks can be cut anywhere)."""
